@@ -34,7 +34,14 @@ RULE = (
     "bytes=f-l / f- / -s with 0<=f,l,s<=n+1 plus multi-range, whitespace, unit and malformed forms x every length "
     "0..n (quick n=6, thorough n=12) x body shapes x GET/HEAD/POST x If-Range forms; send_file on real files. "
     "non-trivial = distinct case in which a conditional header or a Range header is present and the response is not a "
-    "plain 200 by default (the reference admits 206/304/412/416)."
+    "plain 200 by default (the reference admits 206/304/412/416). Round 2 adds: bodies of bytearray / memoryview "
+    "items; ETag produced by add_etag (weak / overwrite) and freeze(); If-Unmodified-Since next to the other "
+    "validators; every make_conditional argument form (accept_ranges False / True / 'bytes' / 'none' / 'items', "
+    "complete_length int / None / absent, preset Accept-Ranges); Range + If-Range crossed with If-None-Match / If-Match "
+    "/ If-Modified-Since; send_file option forms (conditional, etag str / True, mtime, max_age int / 0 / callable, "
+    "server-supplied wsgi.file_wrapper seekable or not, attachment, float last_modified) and its own validators echoed "
+    "back; a 20000-byte resource with every boundary position around the 8192-byte blocks through 8 body sources; "
+    "thorough: lengths <= 16 and 3-item tag lists."
 )
 ASSUMPTIONS = [
     "validator cases carry no Range header and range cases carry no If-None-Match / If-Modified-Since (the statement "
@@ -48,6 +55,13 @@ ASSUMPTIONS = [
     "If-Match admitted + If-Modified-Since matching: 200 or 304 both admitted; 412 is only required to be absent "
     "when If-Match definitely admits the tag (strong comparison, or '*')",
     "the Date header is written from a fixed instant (wrappers.response.http_date patched in the check process)",
+    "failed If-Range: the Range header is ignored and NOT validated - the complete 200 body also for malformed / "
+    "unsatisfiable / multi-range / other-unit Range headers (round 2, seed C11-2b)",
+    "accept_ranges=False or default arguments: Range ignored (complete 200); accept_ranges 'none' / 'items' or a "
+    "missing complete_length: served or ignored both admitted, a 206 is still judged completely",
+    "Range + If-Range + validators: a sound 304 / 412, the range outcome or the complete body are all admitted (the "
+    "statement does not order Range against the validators); If-Unmodified-Since: ignored or RFC 412 both admitted",
+    "send_file: file mtime set with os.utime, werkzeug.utils.time pinned, files in a private mkdtemp directory",
 ]
 
 import werkzeug.wrappers.response as _wresp  # noqa: E402
@@ -78,6 +92,14 @@ _wresp.http_date = _fixed_http_date
 # ------------------------------------------------------------------ V: validators
 
 TAG_ATOMS = ['"a"', 'W/"a"', '"b"', 'W/"b"', "*", 'a"', "a"]
+
+
+NMAX_THOROUGH = 16
+
+
+def tag_headers3():
+    """thorough only: every 3-item list"""
+    return [", ".join(t) for t in itertools.product(TAG_ATOMS, repeat=3)]
 
 
 def tag_headers():
@@ -276,6 +298,9 @@ def body_shapes(tier):
         shapes.append((f"list{k}", "list", (k, None)))
         shapes.append((f"list{k}e", "list", (k, "between")))
     shapes.append(("list2lead", "list", (2, "lead")))
+    shapes.append(("list2ba", "list-ba", (2, "between")))
+    shapes.append(("list3mv", "list-mv", (3, "between")))
+    shapes.append(("gen2mv", "gen-mv", (2, None)))
     shapes.append(("tuple2", "tuple", (2, None)))
     shapes.append(("gen2", "gen", (2, None)))
     shapes.append(("gen2e", "gen", (2, "between")))
@@ -297,6 +322,15 @@ def make_body(shape, data):
     if kind == "gen":
         items = cut(data, *p)
         return (x for x in items), False, items
+    if kind == "list-ba":
+        items = cut(data, *p)
+        return [bytearray(x) for x in items], False, items
+    if kind == "list-mv":
+        items = cut(data, *p)
+        return [memoryview(x) for x in items], False, items
+    if kind == "gen-mv":
+        items = cut(data, *p)
+        return (memoryview(x) for x in items), False, items
     if kind == "fw":
         return FileWrapper(io.BytesIO(data), p), True, None
     if kind == "fwns":
@@ -393,14 +427,32 @@ def allowed_range(method, hdr, n, ifr):
     if hdr is None or verdict == "pass":
         return base
     if verdict == "fail":
-        return {"none"} | (base & {"416"})
+        # a Range that has to be ignored is not validated either: "ignored (failed If-Range ...) ones the complete
+        # 200 body" - also when the Range header itself is malformed / unsatisfiable / multi-range / other-unit
+        return {"none"}
     return base | {"none"}
 
 
-def run_range_case(shape, data, hdr, method, ifr):
+# make_conditional argument forms: (name, accept_ranges, complete_length form, preset Accept-Ranges header, verdict)
+# verdict: 'base' = ranges must be served as if accept_ranges=True, 'ignored' = Range must be ignored,
+#          'may' = the statement is silent whether byte ranges are served (a 206, if any, is still judged fully)
+CFGS = [
+    ("True", True, "n", None, "base"),
+    ("False", False, "n", None, "ignored"),
+    ("bytes", "bytes", "n", None, "base"),
+    ("none", "none", "n", None, "may"),
+    ("items", "items", "n", None, "may"),
+    ("len-None", True, None, None, "may"),
+    ("len-absent", True, "absent", None, "may"),
+    ("preset-items", True, "n", "items", "base"),
+    ("default-args", "absent", "absent", None, "ignored"),
+]
+
+
+def run_range_case(shape, data, hdr, method, ifr, cfg=0, extra=None):
     """-> ('416', None, None) | (code, headers dict, body)"""
     n = len(data)
-    headers = {}
+    headers = dict(extra or {})
     if hdr is not None:
         headers["Range"] = hdr
     _name, ifr_text, _v, validators = IF_RANGES[ifr]
@@ -413,8 +465,16 @@ def run_range_case(shape, data, hdr, method, ifr):
     if validators:
         r.set_etag("a")
         r.last_modified = T
+    _cn, ar, cl, preset, _cv = CFGS[cfg]
+    kw = {}
+    if ar != "absent":
+        kw["accept_ranges"] = ar
+    if cl != "absent":
+        kw["complete_length"] = n if cl == "n" else cl
+    if preset is not None:
+        r.accept_ranges = preset
     try:
-        r.make_conditional(env, accept_ranges=True, complete_length=n)
+        r.make_conditional(env, **kw)
     except RequestedRangeNotSatisfiable:
         r.close()
         return "416", None, None
@@ -431,6 +491,12 @@ def judge_range(result, allowed, data, method):
     n = len(data)
     if code == "416":
         return None if "416" in allowed else "416-unexpected"
+    if code == 304:
+        if "304" not in allowed:
+            return "304-unsound"
+        return "304-with-body" if body else None
+    if code == 412:
+        return None if "412" in allowed else "412-unexpected"
     if code == 206:
         m = re.fullmatch(r"bytes (\d+)-(\d+)/(\d+)", H.get("Content-Range", ""))
         if not m:
@@ -499,6 +565,432 @@ def run_send_file_case(src, name, hdr, method, ifr, tmpdir):
     return int(status.split()[0]), dict(hl), out
 
 
+# ================================================================== round 2 spaces
+# every space is a pure function  <name>_problem(*params) -> (problem | None, detail)
+
+import contextlib  # noqa: E402
+import hashlib  # noqa: E402
+
+import werkzeug.utils as _wutils  # noqa: E402
+
+SHA = hashlib.sha1(DATA).hexdigest()
+
+# ---- ES: where the response ETag comes from
+ESRC = ["add_etag", "add_etag-weak", "set-then-add_etag-overwrite", "freeze", "set-then-add_etag", "freeze-after-set",
+        "add_etag-weak-overwrite"]
+ES_ATOMS = ['"%s"' % SHA, 'W/"%s"' % SHA, '"b"', "*", '"a"']
+ES_HEADERS = ES_ATOMS + [x + ", " + y for x in ES_ATOMS for y in ES_ATOMS]
+
+
+def _apply_esrc(r, src):
+    """-> (opaque tag, weak) the response must carry afterwards"""
+    if src == "add_etag":
+        r.add_etag()
+        return SHA, False
+    if src == "add_etag-weak":
+        r.add_etag(weak=True)
+        return SHA, True
+    if src == "set-then-add_etag-overwrite":
+        r.set_etag("a")
+        r.add_etag(overwrite=True)
+        return SHA, False
+    if src == "add_etag-weak-overwrite":
+        r.set_etag("a")
+        r.add_etag(overwrite=True, weak=True)
+        return SHA, True
+    if src == "freeze":
+        r.freeze()
+        return SHA, False
+    if src == "set-then-add_etag":
+        r.set_etag("a", weak=True)
+        r.add_etag()
+        return "a", True
+    if src == "freeze-after-set":
+        r.set_etag("a")
+        r.freeze()
+        return "a", False
+    raise AssertionError(src)
+
+
+def etagsrc_problem(si, kind, hi, lmi, imsi, method):
+    hdr = ES_HEADERS[hi]
+    headers = {"If-None-Match" if kind == "INM" else "If-Match": hdr}
+    if IMSS[imsi][1] is not None:
+        headers["If-Modified-Since"] = IMSS[imsi][1]
+    env = create_environ(method=method, headers=headers)
+    try:
+        r = build_validator_response(None, lmi)
+        etag = _apply_esrc(r, ESRC[si])
+        got_tag = r.get_etag()
+        r.make_conditional(env)
+        app_iter, status, _h = r.get_wsgi_response(env)
+        body = b"".join(app_iter)
+        app_iter.close()
+    except Exception as e:  # noqa: BLE001
+        return "exception:" + type(e).__name__, repr(e)
+    if got_tag != etag:
+        return "etag-source", (got_tag, etag)
+    code = int(status.split()[0])
+    allowed = allowed_status(method, kind, hdr, etag, LMS[lmi][0] != "none", IMSS[imsi][2])
+    if code not in allowed:
+        return ("304-unsound" if code == 304 else "412-admitted" if code == 412 else
+                "304-missing" if allowed == {304} else "status"), (code, sorted(allowed))
+    if code == 304 and body:
+        return "304-with-body", body
+    if code == 200 and body != (b"" if method == "HEAD" else DATA):
+        return "200-body", body
+    return None, code
+
+
+# ---- FD: is_resource_modified(environ, data=...) - the ETag is generated from the body bytes
+def fndata_problem(hi, lmi, imsi, method):
+    hdr = ES_HEADERS[hi]
+    headers = {"If-None-Match": hdr}
+    if IMSS[imsi][1] is not None:
+        headers["If-Modified-Since"] = IMSS[imsi][1]
+    env = create_environ(method=method, headers=headers)
+    _n, lmv, lmtext = LMS[lmi]
+    lm = lmv if lmv is not None else lmtext
+    allowed = allowed_status("GET", "INM", hdr, (SHA, False), lm is not None, IMSS[imsi][2])
+    want = {code == 200 for code in allowed}
+    try:
+        got = whttp.is_resource_modified(env, data=DATA, last_modified=lm)
+    except Exception as e:  # noqa: BLE001
+        return "exception:" + type(e).__name__, repr(e)
+    if got not in want:
+        return ("fn-unmodified-unsound" if got is False else "fn-modified-but-validators-match"), (got, sorted(want))
+    try:
+        whttp.is_resource_modified(env, etag='"x"', data=DATA)
+    except TypeError:
+        return None, got
+    return "fn-etag-and-data-accepted", None
+
+
+# ---- IU: If-Unmodified-Since next to the other validators (werkzeug does not evaluate it; RFC 7232 would answer
+#          412 when the resource is newer - both admitted, nothing else may change)
+IUSS = [("t-1", TXT[-1], -1), ("t", TXT[0], 0), ("t+1", TXT[1], 1), ("garbage", "soon", None)]
+IU_HEADERS = [None] + TAG_ATOMS
+
+
+def ius_problem(hi, kind, ei, lmi, imsi, iusi, method):
+    hdr = IU_HEADERS[hi]
+    etag = ETAGS[ei]
+    headers = {"If-Unmodified-Since": IUSS[iusi][1]}
+    if hdr is not None:
+        headers["If-None-Match" if kind == "INM" else "If-Match"] = hdr
+    if IMSS[imsi][1] is not None:
+        headers["If-Modified-Since"] = IMSS[imsi][1]
+    env = create_environ(method=method, headers=headers)
+    try:
+        r = build_validator_response(etag, lmi)
+        r.make_conditional(env)
+        app_iter, status, _h = r.get_wsgi_response(env)
+        body = b"".join(app_iter)
+        app_iter.close()
+    except Exception as e:  # noqa: BLE001
+        return "exception:" + type(e).__name__, repr(e)
+    code = int(status.split()[0])
+    lm_present = LMS[lmi][0] != "none"
+    allowed = set(allowed_status(method, kind if hdr is not None else None, hdr, etag, lm_present, IMSS[imsi][2]))
+    if lm_present and IUSS[iusi][2] is not None and IUSS[iusi][2] < 0 and method in ("GET", "HEAD"):
+        allowed.add(412)
+    if code not in allowed:
+        return ("304-unsound" if code == 304 else "412-unexpected" if code == 412 else
+                "304-missing" if allowed == {304} else "status"), (code, sorted(allowed))
+    if code == 200 and body != (b"" if method == "HEAD" else DATA):
+        return "200-body", body
+    return None, code
+
+
+# ---- CF: make_conditional argument forms
+def allowed_cfg(method, hdr, n, ifr, cfg):
+    verdict = CFGS[cfg][4]
+    if verdict == "ignored" or method not in ("GET", "HEAD"):
+        return {"none"}
+    base = allowed_range(method, hdr, n, ifr)
+    return base if verdict == "base" else base | {"none"}
+
+
+def cfg_problem(cfg, si, n, hi, method, ifr):
+    shape = body_shapes("quick")[si]
+    data = bytes(range(65, 65 + n))
+    hdr = range_headers(n, "quick")[hi]
+    allowed = allowed_cfg(method, hdr, n, ifr, cfg)
+    try:
+        result = run_range_case(shape, data, hdr, method, ifr, cfg)
+    except Exception as e:  # noqa: BLE001
+        return "exception:" + type(e).__name__, repr(e)
+    what = judge_range(result, allowed, data, method)
+    return what, (shape[0], hdr, CFGS[cfg][0], result, sorted(map(repr, allowed)))
+
+
+# ---- MX: Range + If-Range together with If-None-Match / If-Modified-Since.  The statement does not order Range
+#          against the validators: a sound 304, the range outcome, or the complete body are all admitted.
+MX_INM = [None, '"a"', '"b"', 'W/"a"', "*", ("IM", '"a"'), ("IM", '"b"'), ("IM", "*")]
+MX_IMS = [0, 1, 2]  # index into IMSS: none, t-1, t
+
+
+def mix_problem(si, n, hi, method, ifr, inmi, imsi):
+    shape = body_shapes("quick")[si]
+    data = bytes(range(65, 65 + n))
+    hdr = range_headers(n, "quick")[hi]
+    extra = {}
+    cond = MX_INM[inmi]
+    ckind, chdr = (None, None) if cond is None else ("INM", cond) if isinstance(cond, str) else tuple(cond)
+    if ckind is not None:
+        extra["If-None-Match" if ckind == "INM" else "If-Match"] = chdr
+    if IMSS[imsi][1] is not None:
+        extra["If-Modified-Since"] = IMSS[imsi][1]
+    validators = IF_RANGES[ifr][3]
+    etag = ("a", False) if validators else None
+    allowed = set(allowed_range(method, hdr, n, ifr)) | {"none"}
+    if ckind == "IM" and etag is None:
+        return None, ("If-Match without ETag is outside the quantifier",)
+    v = allowed_status(method, ckind, chdr, etag, validators, IMSS[imsi][2])
+    if 304 in v:
+        allowed.add("304")
+    if 412 in v:
+        allowed.add("412")
+    try:
+        result = run_range_case(shape, data, hdr, method, ifr, 0, extra)
+    except Exception as e:  # noqa: BLE001
+        return "exception:" + type(e).__name__, repr(e)
+    what = judge_range(result, allowed, data, method)
+    return what, (shape[0], hdr, extra, result, sorted(map(repr, allowed)))
+
+
+# ---- SF: send_file option forms, a server-supplied wsgi.file_wrapper, 8192-multiples
+class ServerWrapper:
+    """what a WSGI server installs as environ['wsgi.file_wrapper'] (not seekable)"""
+
+    def __init__(self, file, buffer_size=8192):
+        self.file, self.bs = file, buffer_size
+
+    def __iter__(self):
+        return self
+
+    def __next__(self):
+        d = self.file.read(self.bs)
+        if not d:
+            raise StopIteration
+        return d
+
+    def close(self):
+        self.file.close()
+
+
+class SeekableServerWrapper(ServerWrapper):
+    def seekable(self):
+        return True
+
+    def seek(self, *a):
+        return self.file.seek(*a)
+
+    def tell(self):
+        return self.file.tell()
+
+
+_SCRATCH = {"dir": None}
+
+
+@contextlib.contextmanager
+def scratch():
+    """real files with a fixed mtime (= T) in a private directory; werkzeug.utils.time() pinned"""
+    d = tempfile.mkdtemp(prefix="c11_")
+    old_time = _wutils.time
+    try:
+        for fname, content in FILES.items():
+            path = os.path.join(d, fname)
+            with open(path, "wb") as f:
+                f.write(content)
+            os.utime(path, (T.timestamp(), T.timestamp()))
+        _SCRATCH["dir"] = d
+        _wutils.time = lambda: T.timestamp() + 86400.0
+        yield d
+    finally:
+        _wutils.time = old_time
+        _SCRATCH["dir"] = None
+        shutil.rmtree(d, ignore_errors=True)
+
+
+# (name, kwargs for send_file, environ file_wrapper, verdict, needs a path)
+SF_CFGS = [
+    ("base", dict(etag="a", last_modified=T), None, "base", False),
+    ("unconditional", dict(etag="a", last_modified=T, conditional=False), None, "ignored", False),
+    ("etag-auto", dict(etag=True), None, "base", True),
+    ("mtime", dict(etag="a"), None, "base", True),
+    ("max_age-60", dict(etag="a", last_modified=T, max_age=60), None, "base", False),
+    ("max_age-0", dict(etag="a", last_modified=T, max_age=0), None, "base", False),
+    ("max_age-callable", dict(etag="a", last_modified=T, max_age=lambda p: 30), None, "base", False),
+    ("server-wrapper", dict(etag="a", last_modified=T), ServerWrapper, "base", False),
+    ("server-wrapper-seekable", dict(etag="a", last_modified=T), SeekableServerWrapper, "base", False),
+    ("attachment", dict(etag="a", last_modified=T, as_attachment=True, download_name="é x.bin"), None, "base", False),
+    ("lm-timestamp", dict(etag="a", last_modified=T.timestamp() + 0.5), None, "base", False),
+]
+
+
+def run_sf_case(cfgi, src, name, hdr, method, ifr):
+    _cn, kw, wrapper, _verdict, _np = SF_CFGS[cfgi]
+    data = FILES[name]
+    _n, ifr_text, _v, validators = IF_RANGES[ifr]
+    kw = dict(kw)
+    kw.setdefault("conditional", True)
+    kw["mimetype"] = "application/octet-stream"
+    if not validators:
+        kw.update(etag=False, last_modified=None)
+    base_env = {}
+    if wrapper is not None:
+        base_env["wsgi.file_wrapper"] = wrapper
+
+    def target():
+        return os.path.join(_SCRATCH["dir"], name) if src == "path" else io.BytesIO(data)
+
+    if ifr_text is not None and kw.get("etag") is True and ifr_text in ('"a"', 'W/"a"'):
+        # a client can only echo the tag it was given: fetch it with an unconditional request first
+        r0 = send_file(target(), create_environ(environ_overrides=dict(base_env)), **kw)
+        actual = r0.headers["ETag"]
+        r0.close()
+        ifr_text = ifr_text.replace('"a"', actual)
+    headers = {}
+    if hdr is not None:
+        headers["Range"] = hdr
+    if ifr_text is not None:
+        headers["If-Range"] = ifr_text
+    env = create_environ(method=method, headers=headers, environ_overrides=dict(base_env))
+    try:
+        r = send_file(target(), env, **kw)
+    except RequestedRangeNotSatisfiable:
+        return "416", None, None
+    app_iter, status, hl = r.get_wsgi_response(env)
+    out = b"".join(app_iter)
+    if hasattr(app_iter, "close"):
+        app_iter.close()
+    r.close()
+    return int(status.split()[0]), dict(hl), out
+
+
+def sf_problem(cfgi, src, name, hdr, method, ifr):
+    data = FILES[name]
+    verdict = SF_CFGS[cfgi][3]
+    allowed = {"none"} if verdict == "ignored" else allowed_range(method, hdr, len(data), ifr)
+    with (scratch() if _SCRATCH["dir"] is None else contextlib.nullcontext()):
+        try:
+            result = run_sf_case(cfgi, src, name, hdr, method, ifr)
+        except Exception as e:  # noqa: BLE001
+            return "exception:" + type(e).__name__, repr(e)
+    what = judge_range(result, allowed, data, method)
+    return what, (SF_CFGS[cfgi][0], src, name, hdr, result[0], (result[1] or {}).get("Content-Range"),
+                  None if result[2] is None else len(result[2]), sorted(map(repr, allowed)))
+
+
+def sf_validator_problem(cfgi, src, name, method, mode):
+    """send_file answers 304 to the validators it handed out itself (and only then)."""
+    _cn, kw, wrapper, verdict, _np = SF_CFGS[cfgi]
+    data = FILES[name]
+    with (scratch() if _SCRATCH["dir"] is None else contextlib.nullcontext()):
+        kw = dict(kw)
+        kw.setdefault("conditional", True)
+        kw["mimetype"] = "application/octet-stream"
+        base_env = {"wsgi.file_wrapper": wrapper} if wrapper is not None else {}
+
+        def target():
+            return os.path.join(_SCRATCH["dir"], name) if src == "path" else io.BytesIO(data)
+        try:
+            r0 = send_file(target(), create_environ(environ_overrides=dict(base_env)), **kw)
+            etag, lm = r0.headers.get("ETag"), r0.headers.get("Last-Modified")
+            r0.close()
+            if mode == "inm-own":
+                headers = {"If-None-Match": etag} if etag else {}
+                match = bool(etag)
+            elif mode == "inm-other":
+                headers = {"If-None-Match": '"zzz"'}
+                match = False if etag else None
+            elif mode == "ims-own":
+                headers = {"If-Modified-Since": lm} if lm else {}
+                match = bool(lm)
+            else:  # ims-older
+                headers = {"If-Modified-Since": TXT[-1]}
+                match = False
+            if lm is not None and lm != TXT[0]:
+                return "last-modified-header", lm
+            env = create_environ(method=method, headers=headers, environ_overrides=dict(base_env))
+            r = send_file(target(), env, **kw)
+            app_iter, status, hl = r.get_wsgi_response(env)
+            body = b"".join(app_iter)
+            app_iter.close()
+            r.close()
+        except Exception as e:  # noqa: BLE001
+            return "exception:" + type(e).__name__, repr(e)
+    code = int(status.split()[0])
+    if verdict == "ignored" or method == "POST":
+        want = {200}
+    elif match is None:
+        want = {200, 304}
+    else:
+        want = {304} if match else {200}
+    if code not in want:
+        return ("304-unsound" if code == 304 else "304-missing" if want == {304} else "status"), (code, headers)
+    if code == 304 and body:
+        return "304-with-body", len(body)
+    if code == 200 and body != (b"" if method == "HEAD" else data):
+        return "200-body", len(body)
+    return None, code
+
+
+# ---- BG: 20000-byte resource, every boundary position around the 8192-byte blocks
+BIG_POS = [0, 1, 8191, 8192, 8193, 16383, 16384, 16385, 19999, 20000]
+BIG_SUFFIX = [1, 8191, 8192, 8193, 16384, 19999, 20000, 20001]
+BIG_SRC = ["path", "bytesio", "server-wrapper", "server-wrapper-seekable", "fw-default", "fwns-default", "list-8192",
+           "gen-8192-mv"]
+
+
+def big_headers():
+    return ([f"bytes={a}-{b}" for a in BIG_POS for b in BIG_POS] + [f"bytes={a}-" for a in BIG_POS]
+            + [f"bytes=-{k}" for k in BIG_SUFFIX])
+
+
+def big_problem(srci, hi, method, ifr):
+    src = BIG_SRC[srci]
+    hdr = big_headers()[hi]
+    allowed = allowed_range(method, hdr, len(BIG), ifr)
+    with (scratch() if _SCRATCH["dir"] is None else contextlib.nullcontext()):
+        try:
+            if src in ("path", "bytesio"):
+                result = run_sf_case(0, src, "big", hdr, method, ifr)
+            elif src.startswith("server-wrapper"):
+                result = run_sf_case(7 if src == "server-wrapper" else 8, "path", "big", hdr, method, ifr)
+            else:
+                shape = {"fw-default": ("fw8192", "fw", 8192), "fwns-default": ("fwns8192", "fwns", 8192),
+                         "list-8192": ("list8192", "list", (8192, None)),
+                         "gen-8192-mv": ("gen8192mv", "gen-mv", (8192, None))}[src]
+                result = run_range_case(shape, BIG, hdr, method, ifr)
+        except Exception as e:  # noqa: BLE001
+            return "exception:" + type(e).__name__, repr(e)
+    what = judge_range(result, allowed, BIG, method)
+    return what, (src, hdr, result[0], (result[1] or {}).get("Content-Range"),
+                  None if result[2] is None else len(result[2]), sorted(map(repr, allowed)))
+
+
+R2 = {"fndata": fndata_problem, "etagsrc": etagsrc_problem, "ius": ius_problem, "cfg": cfg_problem, "mix": mix_problem, "sf": sf_problem,
+      "sfval": sf_validator_problem, "big": big_problem}
+
+
+def r2_eval(R, space, params, nontrivial=True):
+    R.ev()
+    try:
+        what, detail = R2[space](*params)
+    except Exception as e:  # noqa: BLE001
+        what, detail = "harness-exception:" + type(e).__name__, repr(e)
+    R.use("r2:" + space)
+    R.outcome((space, what))
+    if nontrivial:
+        R.nontrivial((space, params))
+    if what:
+        R.violation(f"{space}:{what}", {"kind": "r2", "space": space, "params": list(params), "what": what,
+                                        "detail": repr(detail)[:600]})
+    return what, detail
+
+
 # ------------------------------------------------------------------ units
 
 def units(tier):
@@ -507,7 +999,7 @@ def units(tier):
     per = 3
     for i in range(0, len(ths), per):
         us.append(("val", i, i + per))
-    nmax = 12 if tier == "thorough" else 6
+    nmax = NMAX_THOROUGH if tier == "thorough" else 6
     shapes = body_shapes(tier)
     for n in range(nmax + 1):
         for si in range(len(shapes)):
@@ -515,7 +1007,40 @@ def units(tier):
     for name in FILES:
         for src in ("path", "bytesio"):
             us.append(("file", name, src))
+    # ---- round 2
+    T_ = tier == "thorough"
+    if T_:
+        t3 = tag_headers3()
+        for i in range(0, len(t3), 7):
+            us.append(("val3", i, i + 7))
+    for si in range(len(ESRC)):
+        for kind in ("INM", "IM"):
+            us.append(("r2es", si, kind))
+    for hi in range(len(IU_HEADERS)):
+        us.append(("r2ius", hi))
+    for cfg in range(1, len(CFGS)):
+        for name in R2_SHAPES:
+            us.append(("r2cfg", cfg, name))
+    for name in R2_SHAPES[:2] if not T_ else R2_SHAPES:
+        for n in ((0, 3, 6) if not T_ else range(0, 9)):
+            us.append(("r2mix", name, n))
+    for cfgi in range(len(SF_CFGS)):
+        for src in ("path", "bytesio"):
+            if SF_CFGS[cfgi][4] and src != "path":
+                continue
+            for name in ("f6", "big", "f0"):
+                us.append(("r2sf", cfgi, src, name))
+    us.append(("r2sfval",))
+    for srci in range(len(BIG_SRC)):
+        us.append(("r2big", srci))
     return us
+
+
+R2_SHAPES = ["list1", "list2e", "fw2", "gen2", "fwns3", "list3mv"]
+
+
+def shape_index(name):
+    return [x[0] for x in body_shapes("quick")].index(name)
 
 
 IFR_SHAPES = {"list1", "list2e", "gen2", "fw2", "fwns3"}
@@ -525,15 +1050,112 @@ def run_unit(unit, R, tier):
     kind = unit[0]
     if kind == "val":
         run_val_unit(unit, R, tier)
+    elif kind == "val3":
+        run_val_unit(unit, R, tier, tag_headers3())
     elif kind == "rng":
         run_rng_unit(unit, R, tier)
-    else:
+    elif kind == "file":
         run_file_unit(unit, R, tier)
+    else:
+        run_r2_unit(unit, R, tier)
 
 
-def run_val_unit(unit, R, tier):
+def run_r2_unit(unit, R, tier):
+    kind = unit[0]
+    T_ = tier == "thorough"
+    if kind == "r2es":
+        _, si, k = unit
+        for hi in range(len(ES_HEADERS)):
+            for lmi in range(len(LMS)):
+                for imsi in range(len(IMSS)):
+                    for method in METHODS:
+                        r2_eval(R, "etagsrc", (si, k, hi, lmi, imsi, method))
+        R.use("esrc:" + ESRC[si])
+        if si == 0 and k == "INM":
+            for hi in range(len(ES_HEADERS)):
+                for lmi in range(len(LMS)):
+                    for imsi in range(len(IMSS)):
+                        for method in METHODS:
+                            r2_eval(R, "fndata", (hi, lmi, imsi, method))
+    elif kind == "r2ius":
+        hi = unit[1]
+        for k in ("INM", "IM"):
+            for ei in range(len(ETAGS)):
+                if k == "IM" and (ETAGS[ei] is None or IU_HEADERS[hi] is None):
+                    continue
+                for lmi in range(len(LMS)):
+                    for imsi in range(len(IMSS)):
+                        for iusi in range(len(IUSS)):
+                            for method in METHODS:
+                                r2_eval(R, "ius", (hi, k, ei, lmi, imsi, iusi, method))
+    elif kind == "r2cfg":
+        _, cfg, name = unit
+        si = shape_index(name)
+        R.use("cfg:" + CFGS[cfg][0])
+        for n in range(0, 7):
+            for hi in range(len(range_headers(n, "quick"))):
+                for method in METHODS:
+                    for ifr in (0, 2, 4):
+                        what, d = r2_eval(R, "cfg", (cfg, si, n, hi, method, ifr))
+                        if not what:
+                            R.use("cfg-code:%s:%s" % (CFGS[cfg][4], d[3][0]))
+    elif kind == "r2mix":
+        _, name, n = unit
+        si = shape_index(name)
+        for hi in range(len(range_headers(n, "quick"))):
+            for method in METHODS:
+                for ifr in range(len(IF_RANGES)):
+                    for inmi in range(len(MX_INM)):
+                        for imsi in MX_IMS:
+                            if inmi == 0 and imsi == 0:
+                                continue  # no validators: the plain range space
+                            what, d = r2_eval(R, "mix", (si, n, hi, method, ifr, inmi, imsi))
+                            if not what and len(d) > 3:
+                                R.use("mix-code:%s" % (d[3][0],))
+    elif kind == "r2sf":
+        _, cfgi, src, name = unit
+        n = len(FILES[name])
+        hdrs = BIG_RANGES if name == "big" else range_headers(n, "quick")
+        R.use("sfcfg:" + SF_CFGS[cfgi][0])
+        with scratch():
+            for hdr in hdrs:
+                for method in METHODS:
+                    for ifr in range(len(IF_RANGES)):
+                        if not IF_RANGES[ifr][3] and (src == "path" or SF_CFGS[cfgi][4]):
+                            continue
+                        what, d = r2_eval(R, "sf", (cfgi, src, name, hdr, method, ifr))
+                        if not what:
+                            R.use("sf-code:%s:%s" % (SF_CFGS[cfgi][3], d[4]))
+    elif kind == "r2sfval":
+        with scratch():
+            for cfgi in range(len(SF_CFGS)):
+                for src in ("path", "bytesio"):
+                    if SF_CFGS[cfgi][4] and src != "path":
+                        continue
+                    for name in ("f6", "big", "f0"):
+                        for method in METHODS:
+                            for mode in ("inm-own", "inm-other", "ims-own", "ims-older"):
+                                what, d = r2_eval(R, "sfval", (cfgi, src, name, method, mode))
+                                if not what:
+                                    R.use("sfval-code:%s" % d)
+    elif kind == "r2big":
+        srci = unit[1]
+        R.use("bigsrc:" + BIG_SRC[srci])
+        with scratch():
+            for hi in range(len(big_headers())):
+                for method in METHODS:
+                    for ifr in (range(len(IF_RANGES)) if T_ else (0, 2, 4)):
+                        if not IF_RANGES[ifr][3] and BIG_SRC[srci] in ("path", "server-wrapper", "server-wrapper-seekable"):
+                            continue
+                        what, d = r2_eval(R, "big", (srci, hi, method, ifr))
+                        if not what:
+                            R.use("big-code:%s" % (d[2],))
+        R.sample({"space": "8192-multiples", "source": BIG_SRC[srci], "headers": len(big_headers())})
+
+
+def run_val_unit(unit, R, tier, all_headers=None):
     _, lo, hi = unit
-    ths = tag_headers()[lo:hi]
+    ths = (all_headers if all_headers is not None else tag_headers())[lo:hi]
     for hdr in ths:
         for kind in ("INM", "IM"):
             for etag in ETAGS:
@@ -545,7 +1167,7 @@ def run_val_unit(unit, R, tier):
                             one_validator(R, kind, hdr, etag, lmi, imsi, method)
                         if kind == "INM":
                             one_fn(R, kind, hdr, etag, lmi, imsi)
-    if lo == 0:
+    if lo == 0 and all_headers is None:
         for etag in ETAGS:
             for lmi in range(len(LMS)):
                 for imsi in range(len(IMSS)):
@@ -591,8 +1213,12 @@ def run_rng_unit(unit, R, tier):
             for ifr in (range(len(IF_RANGES)) if full_ifr else (0,)):
                 one_range(R, shape, data, hdr, method, ifr)
     if n == 4:
+        try:
+            ex = repr(run_range_case(shape, data, "bytes=1-2", "GET", 0))
+        except Exception as e:  # noqa: BLE001 - reported per case above
+            ex = repr(e)
         R.sample({"space": "ranges", "shape": shape[0], "length": n, "headers": len(hdrs),
-                  "example": {"Range": "bytes=1-2", "result": repr(run_range_case(shape, data, "bytes=1-2", "GET", 0))}})
+                  "example": {"Range": "bytes=1-2", "result": ex}})
 
 
 def one_range(R, shape, data, hdr, method, ifr):
@@ -666,6 +1292,12 @@ def finalize(R, tier):
             "f:code:200", "f:code:206", "f:code:416", "f:src:path", "f:src:bytesio",
             "shape:list", "shape:tuple", "shape:gen", "shape:fw", "shape:fwns"}
     need |= {"v:lm:" + x[0] for x in LMS} | {"v:ims:" + x[0] for x in IMSS} | {"r:ifr:" + x[0] for x in IF_RANGES}
+    need |= {"shape:list-ba", "shape:list-mv", "shape:gen-mv"}
+    need |= {"r2:" + k for k in R2} | {"esrc:" + e for e in ESRC} | {"cfg:" + c[0] for c in CFGS[1:]}
+    need |= {"sfcfg:" + c[0] for c in SF_CFGS} | {"bigsrc:" + b for b in BIG_SRC}
+    need |= {"cfg-code:base:206", "cfg-code:base:416", "cfg-code:ignored:200", "cfg-code:may:200",
+             "mix-code:206", "mix-code:200", "mix-code:416", "sf-code:base:206", "sf-code:base:416",
+             "sf-code:ignored:200", "sfval-code:304", "sfval-code:200", "big-code:206", "big-code:416", "big-code:200"}
     missing = need - R.used
     if missing:
         raise core.Broken(f"vacuity: never exercised {sorted(missing)}")
@@ -684,7 +1316,7 @@ def finalize(R, tier):
     for got, want in checks:
         if got != want:
             raise core.Broken(f"reference self-test: {got} != {want}")
-    return {"bound": "resource length <= %d, tag lists <= 2 items" % (12 if tier == "thorough" else 6),
+    return {"bound": "resource length <= %d, tag lists <= %d items" % ((NMAX_THOROUGH, 3) if tier == "thorough" else (6, 2)),
             "exhaustive": True,
             "explanation": "full validator grid; every single-range header with positions 0..n+1 for every length "
                            "0..n x body shapes x methods x If-Range forms; send_file on real files"}
@@ -746,6 +1378,10 @@ def replay(rec):
                                 f"admitted={sorted(map(repr, allowed))} problem={what}")
         finally:
             shutil.rmtree(tmpdir, ignore_errors=True)
+    if k == "r2":
+        params = rec["params"]
+        what, detail = R2[rec["space"]](*params)
+        return bool(what), f"{rec['space']}{tuple(params)} -> problem={what}\n{detail!r}"
     return True, rec.get("traceback", "unit exception")
 
 
@@ -792,7 +1428,28 @@ def _suffix_zero(rec):
     return bool(m and int(m.group(1)) + 1 == int(m.group(2)))
 
 
+def _if_range_date_overridden(rec):
+    """failed If-Range date (older than Last-Modified) + a matching If-None-Match (or a non-admitting If-Match):
+    the Range is honoured / validated although it has to be ignored."""
+    if rec.get("kind") != "r2" or rec.get("space") != "mix":
+        return False
+    if rec.get("what") not in ("206-unexpected", "416-unexpected"):
+        return False
+    si, n, hi, method, ifr, inmi, imsi = rec["params"]
+    if IF_RANGES[ifr][0] != "date-earlier" or method not in ("GET", "HEAD"):
+        return False
+    cond = MX_INM[inmi]
+    if cond is None:
+        return False
+    if isinstance(cond, str):
+        tags = ref_tags(cond)
+        return bool(tags[0] or "a" in tags[1] or "a" in tags[2])
+    tags = ref_tags(cond[1])
+    return not (tags[0] or "a" in tags[1])
+
+
 FINDINGS = {
+    "C11-if-range-date-overridden-by-validators": _if_range_date_overridden,
     "C11-if-match-star-412": _if_match_star,
     "C11-range-empty-item-truncates": _empty_item_truncates,
     "C11-suffix-zero-206": _suffix_zero,
